@@ -844,7 +844,7 @@ func (e *Engine) newCtx(k *Contract, fi *funcInfo) *Ctx {
 		retOrd: map[*ast.ReturnStmt]int{}, strlits: map[string]string{}, calleesUsed: map[string]bool{}, typeIDs: map[string]types.Type{},
 		ifacePreds: map[string]types.Type{}, distinctRefs: map[string]bool{}, sorts: map[string]string{}, idxVars: map[string]*types.Var{},
 		usedSpec: map[string]bool{}, ordDone: map[*ast.FuncDecl]bool{}, byteMems: map[string]bool{}, byteArrs: map[string]bool{},
-		frameWrites: map[string]bool{}, freshRefs: map[string]bool{}, variantAt: map[int]string{}, loopHeads: map[int]*State{}, branchOrd: map[*ast.BranchStmt]int{}, loopNames: map[int]string{}, loopIdxVar: map[int]*types.Var{}, allocSeq: map[string]int{}}
+		frameWrites: map[string]bool{}, freshRefs: map[string]bool{}, variantAt: map[int]string{}, loopHeads: map[int]*State{}, loopEntry: map[int]*State{}, branchOrd: map[*ast.BranchStmt]int{}, loopNames: map[int]string{}, loopIdxVar: map[int]*types.Var{}, allocSeq: map[string]int{}}
 	if fi != nil {
 		c.pkg, c.fn, c.decl = fi.pkg, fi.fn, fi.decl
 	}
